@@ -15,10 +15,10 @@ cargo nextest run --workspace --no-fail-fast --tool-config-file pb:/w/lib/nextes
 mkdir -p M/demo; cp -r "$SD/demo/." M/demo/
 BIN=$(grep -m1 '^name' M/demo/Cargo.toml | sed 's/.*"\(.*\)".*/\1/')
 echo "-- demo WITH patch (expect non-zero exit)"
-( cd M/demo && CARGO_TARGET_DIR=$WT/target/demo cargo build --release --offline 2>&1 | grep -E "^error" | head -3; $WT/target/demo/release/$BIN 2>&1 | tail -6; echo "exit status: $?" )
+( cd M/demo && CARGO_TARGET_DIR=$WT/target/demo cargo build --release --offline 2>&1 | grep -E "^error" | head -3; $WT/target/demo/release/$BIN 2>&1 | tail -6; echo "exit status: ${PIPESTATUS[0]}" )
 git apply -R "$SD/patch.diff"
 echo "-- demo WITHOUT patch (expect exit 0)"
-( cd M/demo && CARGO_TARGET_DIR=$WT/target/demo cargo build --release --offline 2>&1 | grep -E "^error" | head -3; $WT/target/demo/release/$BIN 2>&1 | tail -4; echo "exit status: $?" )
+( cd M/demo && CARGO_TARGET_DIR=$WT/target/demo cargo build --release --offline 2>&1 | grep -E "^error" | head -3; $WT/target/demo/release/$BIN 2>&1 | tail -4; echo "exit status: ${PIPESTATUS[0]}" )
 } > "$LOG" 2>&1
 cd /; git -C /repo worktree remove --force "$WT"; git -C /repo worktree prune
 tail -14 "$LOG"
